@@ -46,6 +46,7 @@ type ExecCtx struct {
 	lastDynRes []Val
 	instSig  *types.Signature
 	loopIdx  map[ast.Node]int
+	headerObj map[string]*types.Var
 	callArgs []Val
 	callRecv *Val
 	inlinedFunc bool // body of a named function inlined at a call site
@@ -779,6 +780,38 @@ func (c *ExecCtx) evalSlice(st *State, x *ast.SliceExpr) Val {
 	return Val{u.fresh("slice", c.sortOfType(c.typeOf(x))), c.typeOf(x)}
 }
 
+// overflowCheck: in units whose contract says `overflow_checked`, every
+// + - * on signed 64-bit integers must stay inside the int64 range (integers
+// are mathematical in the encoding; this makes the machine range an
+// obligation instead of an assumption). Operands are machine values, hence
+// inside the range themselves.
+func (c *ExecCtx) overflowCheck(st *State, res *Term, l, r Val, rt types.Type, pos token.Pos, what string) {
+	root := c
+	for root.parent != nil {
+		root = root.parent
+	}
+	if root.spec == nil || c.u.quiet > 0 {
+		return
+	}
+	if _, ok := root.spec.Extra["overflow_checked"]; !ok {
+		return
+	}
+	b, ok := unalias(rt).Underlying().(*types.Basic)
+	if !ok || b.Info()&types.IsInteger == 0 || b.Info()&types.IsUnsigned != 0 {
+		return
+	}
+	switch b.Kind() {
+	case types.Int, types.Int64, types.UntypedInt:
+	default:
+		return
+	}
+	lo, hi := BigLit("-9223372036854775808"), BigLit("9223372036854775807")
+	for _, o := range []Val{l, r} {
+		st.assumeT(And(Ge(o.T, lo), Le(o.T, hi)))
+	}
+	c.u.oblige(st, "ovf", And(Ge(res, lo), Le(res, hi)), pos, "signed 64-bit "+what+" does not overflow")
+}
+
 func isLitZero(t *Term) bool { return t.Op == "lit" && t.Name == "0" }
 
 func (c *ExecCtx) strSub(s, lo, hi *Term) *Term {
@@ -1219,10 +1252,13 @@ func (c *ExecCtx) binop(st *State, op token.Token, l, r Val, rt types.Type, pos 
 	if ls == SInt && rs == SInt {
 		switch op {
 		case token.ADD:
+			c.overflowCheck(st, Add(l.T, r.T), l, r, rt, pos, "+")
 			return Val{Add(l.T, r.T), rt}
 		case token.SUB:
+			c.overflowCheck(st, Sub(l.T, r.T), l, r, rt, pos, "-")
 			return c.wrapUnsigned(st, Sub(l.T, r.T), rt)
 		case token.MUL:
+			c.overflowCheck(st, Mul(l.T, r.T), l, r, rt, pos, "*")
 			return Val{Mul(l.T, r.T), rt}
 		case token.QUO:
 			if c.sweepOn() {
@@ -1247,6 +1283,18 @@ func (c *ExecCtx) binop(st *State, op token.Token, l, r Val, rt types.Type, pos 
 				if n, err := strconv.Atoi(r.T.Name); err == nil && n >= 0 && n < 63 {
 					return Val{Mul(l.T, IntLit(1<<uint(n))), rt}
 				}
+			}
+			if l.T.Op == "lit" && l.T.Name == "1" {
+				// 1 << n is the spec function pow2(n), pinned by a table for 0..62
+				d.Fun("sf_pow2", []string{SInt}, SInt)
+				t := App("sf_pow2", SInt, r.T)
+				var facts []*Term
+				for k := 0; k <= 62; k++ {
+					facts = append(facts, Imp(Eq(r.T, IntLit(int64(k))), Eq(t, IntLit(int64(1)<<uint(k)))))
+				}
+				st.assumeT(And(facts...))
+				st.assumeT(Imp(And(Ge(r.T, IntLit(0)), Le(r.T, IntLit(62))), Ge(t, IntLit(1))))
+				return Val{t, rt}
 			}
 			d.Fun("shl", []string{SInt, SInt}, SInt)
 			t := App("shl", SInt, l.T, r.T)
